@@ -44,6 +44,18 @@ CHECKS = {
             "oracle: final outcome, exact virtual time of every return/raise (later only while the waiter runs a handler), callbacks exactly once in order, late reply discarded.",
             "virtual time (computation is instantaneous); ties and 'arrived before expiry but first looked at after it' accept both outcomes; negative timeouts: finality and callbacks only",
             "E1+E3", "DESIGN.md#c15"),
+    "C04": ("exploration",
+            "exhaustive enumeration of a value grammar (encode side) and of all short byte strings / tag-class strings / seed mutations (decode side) against the real brine module, with an audit-hook monitor",
+            "Every grammar value (all wire-form length classes, nesting, every non-dumpable kind) is checked for dumpable/dump/load agreement with bit-exact comparison; "
+            "ALL byte strings up to length 2 (quick) or 3 (thorough), all tag-class strings up to length 4/5 and every truncation/substitution of seed encodings are decoded under an audit hook.",
+            "values outside the grammar and byte strings longer than the enumerated classes are not covered; the audit hook sees CPython import/exec/compile/open/pickle events",
+            "E5", "DESIGN.md#c04"),
+    "C19": ("exploration",
+            "differential enumeration against an independently written reference codec and reference peer: byte equality for all grammar values and packet classes, scripted conversations over all 20 handlers / 4 labels / 3 message kinds in both directions",
+            "The reference (DESIGN.md Appendix A) freezes the published 5.x format; rpyc's encoder/decoder, packet framing and the meaning of every handler number are compared with it for the whole value grammar, "
+            "every packet size class x compression setting, and both conversation directions.",
+            "the reference is derived from the pinned source (where the format is published); lone-surrogate text (no published encoding) is skipped",
+            "E5", "DESIGN.md#c19"),
 }
 
 NOT_APPLICABLE = {}
@@ -86,6 +98,8 @@ def main():
         "engines": [
             {"name": "E1", "path": "/verif/mc/sched.py", "serves_properties": sorted(CHECKS),
              "kind_free_text": "controlled logical threads, virtual clock, sim locks/conditions/streams; every choice recorded and replayable"},
+            {"name": "E5", "path": "/verif/mc/refcodec.py", "serves_properties": [p for p in ("C04", "C19", "C13", "C14", "C15", "C07", "C08", "C16", "C18") if p in CHECKS],
+             "kind_free_text": "value grammar (mc/values.py), independent reference codec and scripted raw peer"},
             {"name": "E3", "path": "/verif/mc/bfs.py", "serves_properties": [p for p in ("C10", "C15", "C08", "C02", "C03", "C07", "C17", "C18") if p in CHECKS],
              "kind_free_text": "replay-based explicit-state BFS over event histories on the real code with canonical-state de-duplication"},
             {"name": "E2", "path": "/verif/mc/explore.py", "serves_properties": [p for p in ("C12", "C13", "C14") if p in CHECKS],
